@@ -114,10 +114,13 @@ class World(OpsMixin, OracleMixin):
                 finally:
                     loop.vf_after_handle = None
                     self.checks_on = False
+                    self.draining = True  # user code started from now on never waits on a gate / queue again
                     # let abandoned gated user code finish so that closing the
                     # loop does not hang / spam; the verdict is already taken
                     for g in list(self.gates):
                         g.ev.set()
+                    for _ in getattr(self, "qwaiters", ()):
+                        self._libq.put_nowait(None)
         finally:
             self.by_task.clear()
         return self.result()
@@ -183,6 +186,24 @@ class World(OpsMixin, OracleMixin):
         # unique objects so that identity can be checked
         if shape == "list":
             return [("a", req.idx, 0), ("a", req.idx, 1)]
+        if shape == "iter":
+            # a one-shot iterator (only for requests with at most one invocation, or rejected ones)
+            items = (("a", req.idx, 0), ("a", req.idx, 1))
+
+            class OneShot:
+                def __init__(self):
+                    self.pulled = 0
+                    self._it = iter(items)
+
+                def __iter__(self):
+                    return self
+
+                def __next__(self):
+                    self.pulled += 1
+                    return next(self._it)
+
+            req.args_passed = OneShot()
+            return items
         n = int(shape or 0)
         return tuple(("a", req.idx, j) for j in range(n))
 
@@ -217,6 +238,12 @@ class World(OpsMixin, OracleMixin):
 
             Holder.run.__name__ = Holder.run.__qualname__ = w.__name__
             w = Holder().run
+        if spec.get("flavour") == "partial" and getattr(req, "named", False):
+            # a functools.partial has no __name__: legal as long as the caller names the group
+            import functools
+
+            w = functools.partial(w)
+            self.sit["func.partial"] += 1
         req.func = w
         return w
 
@@ -404,17 +431,27 @@ class World(OpsMixin, OracleMixin):
         if spec.get("async"):
             async def cb(tid):
                 t = enter(tid)
+                if t is None:
+                    return
                 try:
                     for _ in range(spec.get("y", 0)):
                         try:
                             await asyncio.sleep(0)
                         except CancelledError:
                             world.cancel_seen(t, "cb")
+                            if spec.get("prop"):
+                                world.sit["cb.cancelled_and_propagated"] += 1
+                                t.pool.cb_cancel_raised += 1
+                                raise  # a callback that does not swallow a cancellation reaching it (abandoned flush / close)
                     if spec.get("gate"):
                         try:
                             await world._gate("cb", t)
                         except CancelledError:
                             world.cancel_seen(t, "cb")
+                            if spec.get("prop"):
+                                world.sit["cb.cancelled_and_propagated"] += 1
+                                t.pool.cb_cancel_raised += 1
+                                raise
                     if spec.get("op"):
                         world.do_op(spec["op"], ("cb", t, kind))
                     world.ucp(t.pool, ("cb", t.tid))
@@ -425,6 +462,8 @@ class World(OpsMixin, OracleMixin):
         else:
             def cb(tid):
                 t = enter(tid)
+                if t is None:
+                    return
                 try:
                     if spec.get("op"):
                         world.do_op(spec["op"], ("cb", t, kind))
@@ -435,13 +474,38 @@ class World(OpsMixin, OracleMixin):
                     raise world.new_exc(f"{kind}cb:{tid}")
         cb.__name__ = f"{kind}cb{req.idx}"
         if spec.get("partial"):
+            # a callback with positional arguments bound in advance: cb(<bound>, task_id)
             import functools
 
-            return functools.partial(cb)
+            tag = ("bound", req.idx, kind)
+            if spec.get("async"):
+                async def bound_cb(a, b, tid):
+                    if a is not tag or b != kind:
+                        world.violate("C11.cb_id", f"partial callback of request {req.idx} got ({a!r}, {b!r}, {tid!r}); bound were ({tag!r}, {kind!r})")
+                    return await cb(tid)
+            else:
+                def bound_cb(a, b, tid):
+                    if a is not tag or b != kind:
+                        world.violate("C11.cb_id", f"partial callback of request {req.idx} got ({a!r}, {b!r}, {tid!r}); bound were ({tag!r}, {kind!r})")
+                    return cb(tid)
+            world.sit["cb.partial_bound_args"] += 1
+            return functools.partial(bound_cb, tag, kind)
+        if spec.get("obj") and not spec.get("async"):
+            # a callable object that collects the ids it is given - and is falsy while it is empty
+            class Collector(list):
+                def __call__(self, tid):
+                    self.append(tid)
+                    return cb(tid)
+
+            world.sit["cb.callable_object"] += 1
+            return Collector()
         return cb
 
     def _cb_enter(self, req, kind, tid):
         pr = req.pool
+        if not isinstance(tid, int) or isinstance(tid, bool):
+            self.violate("C11.cb_id", f"{kind}-callback of request {req.idx} was called with {tid!r} instead of a task id")
+            return None
         t = self.task_rec(pr, tid)
         if t.req is None:
             if req.kind == "sfunc":
@@ -541,6 +605,26 @@ class World(OpsMixin, OracleMixin):
                 el = {"a": base, "i": i}
             elems.append(el)
         req.elements = elems
+        # what is handed to the pool: for the star variants the same contents also as list, one-shot iterator,
+        # generator (func(*x)) or as a non-dict mapping (func(**x))
+        passed = list(elems)
+        if stars and spec.get("marker", True):
+            import collections
+
+            for i, el in enumerate(elems):
+                if i in req.bad or i in req.empties:
+                    continue
+                variant = (req.idx * 7 + i) % 5
+                if stars == 1 and variant == 1:
+                    passed[i] = list(el)
+                elif stars == 1 and variant == 2:
+                    passed[i] = iter(el)
+                elif stars == 1 and variant == 3:
+                    passed[i] = (x for x in el)
+                elif stars == 2 and variant in (1, 2):
+                    passed[i] = collections.UserDict(el) if variant == 1 else collections.OrderedDict(el)
+            self.sit["map.element_shapes_varied"] += 1
+        elems = passed
         kind = spec.get("iter", "gen")
         if kind == "list":
             req.observable_pulls = False
